@@ -21,12 +21,12 @@ CLAIMED = {
          "DESIGN.md 4/C05"),
  "C06": ("exploration",
          ENUM + ": all operator sequences x tree shapes x 32 parenthesisation/blank layouts vs reference evaluation of the AST",
-         "All operator sequences over + - * / ^ up to length 4 (quick) / 6 (thorough) with every binary tree shape, each rendered 32 ways (minimal, full and redundant parentheses x blank layouts), plus to/round/floor/ceil variants and random deeper trees; every rendering must give exactly the reference value of the AST (or an error iff the reference errors).",
+         "All operator sequences over + - * / ^ up to length 4 (quick) / 6 (thorough) with every binary tree shape, each rendered 32 ways (minimal, full and redundant parentheses x blank layouts), plus to/round/floor/ceil variants and random deeper trees; every rendering must give exactly the reference value of the AST (or an error iff the reference errors); every kind of blank the tool's own lexer takes into a blank run (15 kinds), in every position of a run, evaluates as plain spaces do.",
          "Trusts the harness renderer's blank policy (blanks may only be dropped between plain numbers, parentheses and commas; + - and `to` always spaced) and the reference evaluator.",
          "DESIGN.md 4/C06"),
  "C07": ("exploration",
          ENUM + ": every well-formed literal up to length 6/8 and random literals up to 600 digits vs an independent decimal reader, through four observation points",
-         "Every well-formed literal of length <= 5 (quick) / 6 (thorough) over all digits and <= 6 / 8 over digits 0 1 5 9 is read by str::parse::<Rational>, as a bare query, as left operand and as right operand; all four must equal the independent reader. Random literals with up to 600 digits and exponents up to 999.",
+         "Every well-formed literal of length <= 5 (quick) / 6 (thorough) over all digits and <= 6 / 8 over digits 0 1 5 9 is read by str::parse::<Rational>, as a bare query, as left operand and as right operand; all four must equal the independent reader. Random literals with up to 600 digits and exponents up to 999; literals of 1020-65k characters; literals whose exponent does not fit 32 bits must be refused at every entry point.",
          "Trusts the harness's decimal reader (15 lines) and BigRational.",
          "DESIGN.md 4/C07"),
  "C08": ("exploration",
@@ -41,23 +41,23 @@ CLAIMED = {
          "DESIGN.md 4/C10"),
  "C12": ("exploration",
          ENUM + ": all strings up to length 4 (quick) / 6 (thorough) over a 40-symbol alphabet; tokens must tile the input and equal the parse tree's leaves",
-         "All 40^k strings for k <= 4 (quick; plus 20^5) or k <= 6 (thorough) and random longer / arbitrary Unicode strings: lexer terminates, tokens non-empty, contiguous, on char boundaries, covering the input; parse_root succeeds and its leaves are exactly the tokens (start, end, kind); plus huge-token families (2^16..2^17 bytes, up to 65 000 tokens) and an alignment sweep (runs of 0..130 token characters followed by each of 13 multi-byte characters).",
+         "All 40^k strings for k <= 4 (quick; plus 20^5) or k <= 6 (thorough) and random longer / arbitrary Unicode strings: lexer terminates, tokens non-empty, contiguous, on char boundaries, covering the input; parse_root succeeds and its leaves are exactly the tokens (start, end, kind); a part of the enumeration again with the Trace log level enabled; plus huge-token families (2^16..2^17 bytes, up to 65 000 tokens) and an alignment sweep (runs of 0..130 token characters followed by each of 13 multi-byte characters).",
          "Uses the doc-hidden public modules anything::syntax::{lexer,parser}; a watchdog turns non-termination into exit 2 (inconclusive) and a token-count limit into a violation.",
          "DESIGN.md 4/C12"),
 
  "C02": ("exploration",
          PBT + ": pairs of unit spellings constructed for equal / perturbed dimension vectors vs a hand-written dimension table and exact factor arithmetic",
-         "Commensurable pairs are built by construction (free first spelling; second = random derived units plus the residual in base units, which reaches spellings whose base powers cancel: J/N, V*A, C/s), incommensurable pairs by perturbing the dimension; forms + - to and the plain-number forms in both operand orders; success iff the reference dimensions are equal, exact value, result unit checked for casts and plain-number forms; also sum chains of three to five terms with leading plain numbers, computed left operands, powers far apart and unit powers at the 32-bit boundary.",
+         "Commensurable pairs are built by construction (free first spelling; second = random derived units plus the residual in base units, which reaches spellings whose base powers cancel: J/N, V*A, C/s), incommensurable pairs by perturbing the dimension; forms + - to and the plain-number forms in both operand orders; success iff the reference dimensions are equal, exact value, result unit checked for casts and plain-number forms; also sum chains of three to five terms with leading plain numbers, computed left operands (also a plain number over a quantity), powers far apart and unit powers at the 32-bit boundary.",
          "Dimensions come from the hand-written table; per-unit factors are the tool's own (observed once with 86 casts, judged by C05). Words the tool does not read as declared are excluded (C05 judges them).",
          "DESIGN.md 4/C02"),
  "C03": ("exploration",
          PBT + " plus an exhaustive prefix x unit x power grid: conversion families (direct, there-and-back, via intermediate, scaled) vs the product of single-unit factors and powers of ten",
-         "Each family of commensurable spellings is cast directly, there and back, via an intermediate unit, with scaled input and scaled output; all must equal x*s(U1)/s(U2) with s the product of observed single-unit factors and 10^(prefix*power); the grid `1 <prefix><name>^n to <name>^n` = 10^(e*n) is complete over every prefixed word read as declared and n in -3..3.",
+         "Each family of commensurable spellings is cast directly, there and back, via an intermediate unit, with scaled input and scaled output; all must equal x*s(U1)/s(U2) with s the product of observed single-unit factors and 10^(prefix*power); the grid `1 <prefix><name>^n to <name>^n` = 10^(e*n) is complete over every prefixed word read as declared and n in -3..3; every glued product word (kWh, mAh …) with exactly one documented reading is refused or has the value of that reading.",
          "Single-unit factors are observed from the tool (C05 judges them against the standards); prefix exponents come from the SI brochure table in the harness.",
          "DESIGN.md 4/C03"),
  "C04": ("exploration",
          PBT + ": expression trees over quantities vs reference evaluation on (SI value, dimension vector) pairs, result normalised through the Compound mirror",
-         "Trees with * / ^n (n -3..3) over compound, derived, prefixed, powered and cancelling unit leaves; the tool's result, whatever unit it displays, is normalised by the harness's own arithmetic and must have exactly the reference SI value and dimension; no unit entry with power zero; division by a zero quantity and 0^-n must be errors; `(x u^a)^b` around the 32-bit boundary of the unit's power (that power, or an error); exponents that carry a unit are errors.",
+         "Trees with * / ^n (n -3..3) over compound, derived, prefixed, powered and cancelling unit leaves; the tool's result, whatever unit it displays, is normalised by the harness's own arithmetic and must have exactly the reference SI value and dimension; no unit entry with power zero; division by a zero quantity and 0^-n must be errors; `(x u^a)^b` around the 32-bit boundary of the unit's power (that power, or an error); exponents that carry a unit are errors; small quantities raised to integer powers -80..80.",
          "Trusts the Compound serialisation mirror (serde_cbor) and the observed factor table.",
          "DESIGN.md 4/C04"),
  "C09": ("exploration",
@@ -67,12 +67,12 @@ CLAIMED = {
          "DESIGN.md 4/C09"),
  "C11": ("exploration",
          PBT + " (token soups, mutated well-formed expressions, ASCII noise, arbitrary Unicode) under a validity predicate, in a debug-assertion and a release build, plus a sample through the real binary",
-         "Every input, after a sanitiser that enforces the stated size bounds, must parse, produce a terminating sequence of results, each a displayable value or an error with a message and a range inside the input on char boundaries; no panic in either build profile; sampled inputs also go through the `any` binary (exit 0, no panic).",
+         "Every input, after a sanitiser that enforces the stated size bounds, must parse, produce a terminating sequence of results, each a displayable value or an error with a message and a range inside the input on char boundaries; no panic in either build profile; sampled inputs also go through the `any` binary (exit 0, no panic), half of them with RUST_LOG=trace.",
          "A 30 s watchdog turns a hang into exit 2. The release profile runs as a child process of the same harness and its counts are merged.",
          "DESIGN.md 4/C11"),
  "C13": ("exploration",
          PBT + ": metamorphic field laws, both sides evaluated by the tool and compared after SI normalisation; operands include every typable fact phrase",
-         "Seven law instances per generated triple (commutativity, associativity, distributivity, a-a, a/a) over literals with arbitrary unit spellings and facts decoded by the harness from db/*.bin.gz; both sides must be values with equal SI value and dimension. A second class instantiates the laws over the offset scales (°C, °F, prefixed, inside compounds), degrees compared as intervals, additive laws per scale spelling, plus a^2 = a*a and a^3 = a*a*a.",
+         "Seven law instances per generated triple (commutativity, associativity, distributivity, a-a, a/a) over literals with arbitrary unit spellings and facts decoded by the harness from db/*.bin.gz; both sides must be values with equal SI value and dimension. A second class instantiates the laws over the offset scales (°C, °F, prefixed, inside compounds), degrees compared as intervals, additive laws per scale spelling, plus a^2 = a*a and a^3 = a*a*a; a third class puts a plain number next to quantities whose unit has no net dimension (ft/m, in/ft).",
          "Plain numbers and dimensionless quantities carrying a unit are never mixed in one triple (a plain number adopts its partner's unit, which is C02's rule, not a field law). Additive laws are not instantiated across two different temperature scales: a sum converts its right operand by the affine formula (C09), which is not commutative by construction.",
          "DESIGN.md 4/C13"),
  "C14": ("exploration",
@@ -92,17 +92,17 @@ CLAIMED = {
          "DESIGN.md 4/C16"),
  "C17": ("exploration",
          ENUM + ": all registry units and shipped constants, random compounds/rationals/constants, CBOR and JSON round trips with byte-identical re-encoding",
-         "All 86 units: name -> Compound -> CBOR -> back, the written id equals the id documented in data.toml and a CBOR value hand-built from the documented id decodes to the same unit; every identifier pinned in harness/data/ids_pinned.json (what data written by the pinned build contains) still decodes to the unit of the same name; all 878 shipped constants re-encode and decode equal; every record of sources.bin.gz is reachable by its id in a started database, unchanged; random compounds (built from documented ids), 2000-bit rationals (CBOR and JSON) and constants round-trip with identical bytes.",
+         "All 86 units: name -> Compound -> CBOR -> back, the written id equals the id documented in data.toml and a CBOR value hand-built from the documented id decodes to the same unit; every identifier pinned in harness/data/ids_pinned.json (what data written by the pinned build contains) still decodes to the unit of the same name; all 878 shipped constants re-encode and decode equal; every record of sources.bin.gz is reachable by its id in a started database, unchanged; unit expressions with powers at the boundaries of every integer width written and read back (==, Display; no observation through the serialised shape); random compounds (built from documented ids), 2000-bit rationals (CBOR and JSON) and constants round-trip with identical bytes.",
          "Stability oracle: the identifier table committed in /verif (harness/data/ids_pinned.json, taken from the pinned tree and cross-checked against the ids inside the shipped data files); tools/gen/data.toml is only the name registry.",
          "DESIGN.md 4/C17"),
  "C18": ("exploration",
          PBT + " (expressions mixing literals, quantities and fact phrases) plus history-based testing (shuffled query lists against one database instance)",
-         "Results with and without descriptions must be equal; descriptions must be exactly the phrases used (attributed per result in order: a successful result reports exactly its phrases, a failing one a sub-multiset, and a failure takes nothing away from an earlier success), each paired with the constant the phrase returns alone; the value must equal the reference evaluation with phrases replaced by those constants; every query of a history gives the same results in order, in reverse order on a fresh instance and on a long-lived instance; histories include clusters of phrases sharing a long prefix and of phrases differing only in letter case or in the case of an inserted and/or/not.",
+         "Results with and without descriptions must be equal; descriptions must be exactly the phrases used (attributed per result in order: a successful result reports exactly its phrases, a failing one a sub-multiset, and a failure takes nothing away from an earlier success), each paired with the constant the phrase returns alone; the value must equal the reference evaluation with phrases replaced by those constants; every query of a history gives the same results in order, in reverse order on a fresh instance and on a long-lived instance; histories of bare lookups repeat a rejected or not-found phrase right after a found one; histories include clusters of phrases sharing a long prefix and of phrases differing only in letter case or in the case of an inserted and/or/not.",
          "Within one expression only the multiset of descriptions is required (the evaluator defines the order).",
          "DESIGN.md 4/C18"),
  "C19": ("exploration",
          PBT + ": differential test of the `any` binary against the library, byte-for-byte stdout comparison in default and --exact mode",
-         "Queries from the other generators (values, units, pluralisable units with value 1 / not 1, runs of results sharing one unit, denominator-only units, errors and lookup failures among several results, facts, multi-result, noise; also --describe, split arguments and non-UTF-8 locale variables) are run through the binary compiled from /repo/src/bin/any.rs; stdout must equal what the harness prints from library results and the exit status must be 0; an exact fraction must be printed in lowest terms with the sign in the numerator; the 12-digit rendering must also satisfy C08's oracle.",
+         "Queries from the other generators (values, units, pluralisable units with value 1 / not 1, runs of results sharing one unit, denominator-only units, errors and lookup failures among several results, facts, multi-result, noise; also --describe, split arguments, non-UTF-8 locale variables and RUST_LOG=trace) are run through the binary compiled from /repo/src/bin/any.rs; stdout must equal what the harness prints from library results and the exit status must be 0; an exact fraction must be printed in lowest terms with the sign in the numerator; the 12-digit rendering must also satisfy C08's oracle.",
          "Diagnostics are rendered by the harness with the same codespan-reporting library; colours are disabled in the child (TERM=dumb, NO_COLOR).",
          "DESIGN.md 4/C19"),
 }
